@@ -16,7 +16,7 @@ RULE = ("altitude grid -1400..36000 ft (50 ft quick / 5 ft thorough) + random al
         "altitudes; a case = (clause, inputs); non-trivial unless it is the sea-level standard atmosphere itself")
 MUST_OBSERVE = ["isa_points", "cross_pairs", "station_altitude_exact", "seam_checks", "mono_pressure", "mono_temperature",
                 "mono_humidity_fraction", "mono_humidity_percent", "humidity_equivalence", "humidity_rejected",
-                "vacuum_queries", "nonstandard_station_seam", "history_cases", "isa_points_under_other_preferred_units", "cross_queries_at_sea_level_exactly"]
+                "vacuum_queries", "nonstandard_station_seam", "history_cases", "isa_points_under_other_preferred_units", "cross_queries_at_sea_level_exactly", "vacuum_humidity_assignments"]
 ASSUMPTIONS = ["R-ISA: T0 288.15 K, P0 101325 Pa, L 6.5 K/km, g0 9.80665, M 0.0289644, R* 8.31432, gamma 1.4, rho0 1.225 kg/m3",
                "humidity pairs for monotonicity are given in one convention (both fractions in [0,1] or both percents in (1,100])"]
 T0, P0, L, G0, M, R, GAMMA, RHO0 = 288.15, 101325.0, 0.0065, 9.80665, 0.0289644, 8.31432, 1.4, 1.225
@@ -212,6 +212,16 @@ def check_vacuum(ctx, case):
             ctx.violation("vacuum.query", f"Vacuum at {case['alt_ft']} ft: density factor {d!r} at {q} ft", case)
         if not (m > 0 and math.isfinite(m)):
             ctx.violation("vacuum.mach", f"Vacuum speed of sound {m!r} at {q} ft", case)
+    # a vacuum stays a vacuum whatever is assigned to its (meaningless, but public and legal) humidity afterwards
+    for hum in case.get("humidity_assigned", []):
+        v.humidity = hum
+        ctx.count("vacuum_humidity_assignments")
+        for q in [case["alt_ft"]] + list(case["queries"][:3]):
+            d, _ = v.get_density_factor_and_mach_for_altitude(q)
+            if d != 0 or v.density_ratio != 0:
+                ctx.violation("vacuum.after-humidity-assignment", f"Vacuum at {case['alt_ft']} ft after humidity = {hum}: density factor {d!r} at {q} ft, "
+                                                                  f"density_ratio {v.density_ratio!r}", case)
+                return
 
 
 def check_history(ctx, case):
@@ -328,7 +338,8 @@ def run(ctx):
         alt = round(rng.uniform(-1400, 36000), 1)
         check_vacuum(ctx, {"clause": "vacuum", "alt_ft": alt, "t_c": round(rng.uniform(-60, 60), 1),
                            "queries": [alt, alt + 10, alt - 29.9, alt + 30, alt - 31, alt + 5000, -1400.0, 36000.0,
-                                       round(rng.uniform(-1400, 36000), 1)]})
+                                       round(rng.uniform(-1400, 36000), 1)],
+                           "humidity_assigned": [rng.choice([0, 0.3, 50, 100])] if rng.random() < 0.5 else []})
 
 
 def replay(ctx, case):
